@@ -244,7 +244,9 @@ def main():
     models = {}
 
     def run_model(name, module, cfg, **kw):
-        models[name] = tlc(module, cfg, timeout=1500, heap="4g", extra=("-noGenerateSpecTE",), **kw)
+        # an own metadir per run: the default name is per process and millisecond, these runs start together
+        models[name] = tlc(module, cfg, timeout=1500, heap="4g", extra=("-noGenerateSpecTE",),
+                           metadir=ck.scratch.path("tlcmeta-" + re.sub(r"\W", "_", name)), **kw)
 
     plan = [("Pop3Blast(MaxLen=%d)" % blast_len, "Pop3Blast", cfgb, {"workers": 6}),
             ("Pop3d", "Pop3d", "Pop3d.cfg", {"workers": 8}),
@@ -401,11 +403,6 @@ def main():
         key = "%s:%s" % (clause, cmd_text(job, step))
         if key not in best or len(job["cmds"]) < len(best[key][0]["cmds"]):
             best[key] = (job, r, kind, step)
-    if any(r.get("tail") for r in recs):
-        for (kind, jidx, job), r in done:
-            if r.get("tail"):
-                best.setdefault("UnsolicitedOutput:" + cmd_text(job, 0), (job, r, kind, 0))
-                break
     pending = []
     nviol = 0
     for key, (job, r, kind, step) in sorted(best.items(), key=lambda kv: (len(kv[1][0]["cmds"]), kv[0])):
